@@ -642,7 +642,7 @@ def partitions(tier):
 
 
 MUST_REACH = ["t1_long_object", "v3_32k_object", "v3_32k_none", "activate_none", "ndef_none", "ndef_object"]
-BOUNDS = {"quick": "mutations of valid layouts with symbolic mutated fields (see module docstring): TLV length fields, CC bytes, control TLVs, Type 3 attribute block (symbolic fields, boundary sets for Nbr/Ln, Nbr up to 255 with Ln up to 4080), PMm, polling answers of every length with/without system code in SENSF_RES, arbitrary first read answers, Type 4 CC file fields, NLEN/ENLEN around the end of the file for both mapping versions (guard bytes behind the file), MLe up to FFFFh with a 400-byte file, short and over-long READ BINARY answers, mapping version 3 with NLEN above 65535, mapping version 3 with a 36 KiB file of position-dependent contents and messages ending around offset 8000h (octets compared with the file; the card reads P1 bit 8 as short file identifier per ISO/IEC 7816-4), ATS of 1..7 symbolic bytes, SENSB_RES protocol info; a fully symbolic Type 2 image of 3 data bytes; GET_VERSION variants; silence from every command index",
+BOUNDS = {"quick": "mutations of valid layouts with symbolic mutated fields (see module docstring): TLV length fields, CC bytes, control TLVs, Type 3 attribute block (symbolic fields, boundary sets for Nbr/Ln, Nbr up to 255 with Ln up to 4080), PMm, polling answers of every length with/without system code in SENSF_RES, arbitrary first read answers, Type 4 CC file fields, NLEN/ENLEN around the end of the file for both mapping versions (guard bytes behind the file), MLe up to FFFFh with a 400-byte file, short and over-long READ BINARY answers, mapping version 3 with NLEN above 65535, mapping version 3 with a 36 KiB file of position-dependent contents and messages ending around offset 8000h (octets compared with the file; the card reads P1 bit 8 as short file identifier per ISO/IEC 7816-4), ATS of 1..7 symbolic bytes, SENSB_RES protocol info; a fully symbolic Type 2 image of 3 data bytes; GET_VERSION variants; silence from every command index; added later: a 100-octet message across the reserved blocks of a 256/512-byte Type 1 tag with HR0 from {11h,12h,1Fh,10h,21h}, octets compared with the data area",
           "thorough": "fully symbolic T2 images of 3 data bytes under three CC sizes; ATS up to 9 bytes; two arbitrary ISO-DEP blocks"}
 OUTSIDE = ["fully symbolic images larger than stated", "more than one mutated structure per image", "NXP GET_VERSION/signature answer variants (concrete in C20's model)"]
 ASSUMPTIONS = ["tags answer well-framed: the simulators of env/tags.py with mutated contents"]
